@@ -12,7 +12,7 @@
 import re
 
 from common import Rule, V, finish
-from mirlib import ENTRY_POINTS, short_path, op_place
+from mirlib import ENTRY_POINTS, short_path, op_place, op_const
 from srclib import walk, walk_block, lit_str, expr_text, pat_text, pat_bindings, stmt_exprs
 
 PROP = "C07"
@@ -299,6 +299,45 @@ def check_harvester_normalisation(S, rule):
         else:
             rule.bad(V(rule.id, "CommandAnalyzer::extract_type_names_recursive", "harvester-misses-normalisation:%s" % w,
                        "parse_type_structure applies %s to every (nested) type text, the recursive harvester does not: `Vec<crate::m::Zeta>` renders ZetaSchema but records no edge/name for Zeta" % w))
+
+
+def check_type_text_splitting(P, rule):
+    """the functions that take type text apart (the resolver's extractors and the recursive harvester) remove exactly one delimiter pair and know a
+    constructor by its literal name: shared by C07-D4, C09-D4, C05-D2 and C02-D4.
+      * `trim_start_matches('(')` / `trim_end_matches('>')` remove *every* leading / trailing delimiter: `((u32, u32), Tile)` and `Set<Vec<u32>>` lose
+        the brackets of their first / last element too;
+      * a branch that keys on the first `<` anywhere in the text ("any other generic wrapper") also fires for tuples and other texts that merely
+        contain a generic element, before the branch meant for them."""
+    DELIMS = set("<>()[]")
+    n = 0
+    for fid in sorted(P.fns):
+        if "{promoted#" in fid:
+            continue
+        in_resolver = fid.startswith("tauri_typegen::analysis::type_resolver::")
+        in_harvester = bool(re.match(r"tauri_typegen::analysis::CommandAnalyzer::extract_type_names", fid))
+        if not (in_resolver or in_harvester):
+            continue
+        f = P.fns[fid]
+        n += 1
+        for c in f.calls:
+            if c.bb not in f.reach_blocks or len(c.args) < 2:
+                continue
+            k_ = op_const(c.args[1]) or {}
+            pat = k_.get("char") if "char" in k_ else (c.arg_str(1) if hasattr(c, "arg_str") else None)
+            if pat is None and hasattr(c, "arg_lit"):
+                pat = c.arg_lit(1, P)
+            if not isinstance(pat, str) or not pat:
+                continue
+            if c.name in ("trim_start_matches", "trim_end_matches", "trim_matches") and set(pat) & DELIMS:
+                rule.bad(V(rule.id, fid, "delimiter-overtrim:%s:%s" % (c.name, pat), "%s removes every `%s` at that end of the type text, not the one delimiter of this constructor: "
+                           "a nested type that begins/ends with the same delimiter loses its own brackets" % (c.name, pat), c.file, c.line))
+            if in_harvester and c.name in ("find", "rfind", "split_once", "rsplit_once", "splitn", "split") and pat in ("<", ">"):
+                rule.bad(V(rule.id, fid, "generic-catch-all:%s" % c.name, "the harvester branches on `%s('%s')` anywhere in the text instead of on a constructor's literal prefix: "
+                           "texts that merely contain a generic element (tuples, references) take that branch" % (c.name, pat), c.file, c.line))
+    if n:
+        rule.ok("%d type-text functions: one delimiter pair per constructor, constructors known by literal prefix" % n)
+    else:
+        rule.bad(V(rule.id, "<anchor>", "missing:type-text-functions", "neither the resolver's extractors nor the recursive harvester were found"))
 
 
 def check(ctx):
@@ -595,6 +634,7 @@ def check(ctx):
         for e in good:
             r4.ok("split_top_level_commas(%s)" % expr_text(e["args"][0]))
         check_harvester_normalisation(S, r4)
+        check_type_text_splitting(P, r4)
         prefixes = sorted(set(lit_str(e["args"][0]) for e in body_deep if e.get("k") == "mcall" and e["method"] == "starts_with" and e["args"] and lit_str(e["args"][0])))
         need = {"Result<", "Option<", "Vec<", "HashMap<", "BTreeMap<", "HashSet<", "BTreeSet<"}
         if need <= set(prefixes):
